@@ -444,11 +444,32 @@ Definition call_result (tbl : list (list N * list N)) (cl sv : side) (sh : shape
       end
   end.
 
+(* ghost: polls of the caller's request stream / the handler's response stream after they have
+   answered None, in the explicit-source runs of the two encoders (Model/Encoder.v run_body_src;
+   c02_source_never_polled_after_end: 0) - tied to the strict streams of the harness *)
+Definition after_end_ghost (tbl : list (list N * list N)) (cl sv : side) (sh : shape) (md : hm)
+           (req : list (option (list N) + status))
+           (h : (hm * list (option (list N) + status)) + status) : N :=
+  let q := Encoder.s_after_end (snd (Encoder.run_body_src (list N) encoding ser_id (compress_of tbl)
+              (cfg_with cl (send_enc cl)) Encoder.Client (map sev_of req) 2)) in
+  let chosen := match request_headers cl md with Some qh => response_encoding sv qh | None => None end in
+  let psrc := match hscript_of sh h with
+              | HUnary (inl (_, m)) => Some [Encoder.SItem (Encoder.IOk m)]
+              | HStream (inl (_, src)) => Some src
+              | _ => None
+              end in
+  match psrc with
+  | Some src => q + Encoder.s_after_end (snd (Encoder.run_body_src (list N) encoding ser_id (compress_of tbl)
+                       (cfg_with sv chosen) Encoder.Server src 2))
+  | None => q
+  end.
+
 Definition obs_call (tbl : list (list N * list N)) (cl sv : side) (shn : N) (md : hm)
            (req : list (option (list N) + status)) (qcuts qpend : list N) (reads : option N)
            (h : (hm * list (option (list N) + status)) + status) (pcuts ppend : list N) (fuel : N) : tr :=
   let '(r, s) := call_result tbl cl sv (shape_of shn) md req qcuts qpend reads h pcuts ppend fuel in
-  Nd [match r with Some r => result_obs r | None => Nd [Nn 9] end; seen_obs s].
+  Nd [match r with Some r => result_obs r | None => Nd [Nn 9] end; seen_obs s;
+      Nn (after_end_ghost tbl cl sv (shape_of shn) md req h)].
 
 (* the same call over a real HTTP/2 connection (kinds h2): the schedule is not controlled, so
    only the final observable is compared, and hyper adds headers of its own (date, ...), so
@@ -472,6 +493,15 @@ Definition restrict_seen (keys : list hname) (s : seen (list N)) : seen (list N)
   | SeenStream md ms e => SeenStream (restrict keys md) ms (restrict_end keys e)
   | _ => s
   end.
+
+(* the client half alone, on a hand-built response (kinds merge): head [headers], DATA frames of
+   the messages [msgs] (identity), then the trailers block [t]; what the client API returns.  Used
+   for responses no tonic server produces: names present both in the head and in the trailers *)
+Definition obs_client_call (cl : side) (shn : N) (http : N) (headers : hm) (msgs : list (list N))
+           (t : hm) (pcuts ppend : list N) (fuel : N) : tr :=
+  let frames := map (fun m => Encoder.FData (frame 0 m)) msgs ++ [Encoder.FTrailers t] in
+  result_obs (client_call (list N) deser_id no_decompress cl (shape_of shn) http headers
+                (transport pcuts ppend frames) (N.to_nat fuel)).
 
 (* ---- what a real HTTP/2 connection does with an ERROR of the request body (F-C06b) ----
    hyper resets the stream (RST_STREAM, INTERNAL_ERROR = 2).  Observed on hyper 1.x / h2 0.4:
@@ -524,4 +554,5 @@ Definition obs_call_h2 (keys : list hname) (tbl : list (list N * list N)) (cl sv
            (h : (hm * list (option (list N) + status)) + status) (fuel : N) : tr :=
   let '(r, s) := call_result_h2 tbl cl sv (shape_of shn) md req reads h fuel in
   Nd [match r with Some r => result_obs (restrict_result keys r) | None => Nd [Nn 9] end;
-      seen_obs (restrict_seen keys s)].
+      seen_obs (restrict_seen keys s);
+      Nn (after_end_ghost tbl cl sv (shape_of shn) md req h)].
